@@ -3,13 +3,19 @@ import copy
 import pickle
 import warnings
 import numpy as np
-from props.common import load_impl, exc_name, conj_prov
+from props.common import load_impl, exc_name, conj_prov, global_state, global_state_diff
 
 RULE = ("random fit/score call histories (4-10 calls quick, up to 20 thorough) over 1-3 importance objects (methods neighbor K=1, neighbor K=2/ADD path, bruteforce, "
-        "montecarlo) sharing datasets, provenance objects and one utility (accuracy or equalized-odds difference; its model object is watched); byte snapshots of every caller-owned object - feature "
+        "montecarlo; the neighbor objects with or without a feature pipeline - StandardScaler, the supervised SelectKBest(k=1), or both, own or shared between the objects - and then "
+        "with a distance callable that computes the matrix from the extracted features it is handed) sharing datasets, provenance objects and one utility (accuracy, "
+        "equalized-odds difference, or ROC-AUC with neighbor-only objects; its model object is watched); the histories contain steps in which the CALLER edits a dataset's "
+        "training arrays in place (a row of X 'repaired', a label flipped, the label array replaced by a new object) between a score and the next fit, followed by re-fits that "
+        "pass the same array OBJECT with changed contents / changed labels (the data-repair loop; part of the histories open with fit, score, in-place repair, fit with the same "
+        "objects, score); byte snapshots of every caller-owned object - feature "
         "arrays, label arrays / Series (values and index), Provenance objects (data and Units lists) and provenance given as integer id arrays (1-D and (unit, candidate) pairs), the distance matrix returned by a recording distance callable, the "
-        "utility's model get_params() and fitted attributes - are taken before the history and compared after EVERY call; every score is compared with the score of a "
-        "fresh object fitted on the same data (no leakage from earlier fits/scores) and repeated neighbor/bruteforce scores must be identical. Non-trivial = history "
+        "utility's model get_params() and fitted attributes - are taken before the history (refreshed after a caller's own edit) and compared after EVERY call; every score is compared with the score of a "
+        "fresh object (fresh utility, fresh pipeline) fitted on the same data (no leakage from earlier fits/scores) and repeated neighbor/bruteforce scores must be identical; np.geterr(), np.geterrcall(), "
+        "the content of warnings.filters and os.environ are snapshotted around every fit/score call and must be unchanged. Non-trivial = history "
         "contains >= 2 fits on different data and >= 2 scores; distinct = distinct histories.")
 
 
@@ -40,7 +46,7 @@ def run(ctx):
     U = I["utility"]
     rng = ctx.rng
     q = ctx.tier == "quick"
-    n_hist = 5 if q else 12          # per worker process (quick: 4 workers, thorough: 8)
+    n_hist = 6 if q else 14          # per worker process (quick: 4 workers, thorough: 8)
     for h in range(n_hist):
         nprng = np.random.RandomState(rng.randrange(2 ** 31))
         # shared pool of datasets
@@ -74,7 +80,7 @@ def run(ctx):
         from sklearn.pipeline import Pipeline
         from sklearn.preprocessing import StandardScaler
         model = KNeighborsClassifier(1) if rng.random() < 0.5 else Pipeline([("sc", StandardScaler()), ("knn", KNeighborsClassifier(1))])
-        util_kind = rng.choice(["accuracy", "eqodds"])
+        util_kind = rng.choice(["accuracy", "accuracy", "eqodds", "eqodds", "rocauc"])
         meta_aware = rng.random() < 0.35
         if meta_aware:
             # a model that reads the training metadata it is handed (fits on the rows flagged 1 only): whatever metadata reaches it must be
@@ -108,6 +114,8 @@ def run(ctx):
         def make_util(mdl):
             if util_kind == "eqodds":
                 return U.SklearnModelEqualizedOddsDifference(mdl, sensitive_features=1)
+            if util_kind == "rocauc":
+                return U.SklearnModelRocAuc(mdl)
             return U.SklearnModelAccuracy(mdl)
         util = make_util(model)
         watched = {"model": model}
@@ -116,24 +124,58 @@ def run(ctx):
             if d["prov"] is not None:
                 watched["prov%d" % i] = d["prov"]
         before = snap(watched)
-        methods = [rng.choice(["neighbor", "neighborK", "bruteforce", "montecarlo"]) for _ in range(rng.randint(1, 3))]
+        methods = [rng.choice(["neighbor", "neighbor", "neighborK", "bruteforce", "montecarlo"]) for _ in range(rng.randint(1, 3))]
         if util_kind == "eqodds":
             # the metric path of this utility (groupings derived from the validation features) is used by bruteforce; montecarlo is left out because
             # its mean_score subsamples half of the (tiny) validation set, which this utility rejects when only one class is drawn
             methods = ["bruteforce"] + [mth if mth != "montecarlo" else "neighbor" for mth in methods[1:]]
 
+        if util_kind == "rocauc":
+            # the element-wise form of this utility (what the neighbor method uses); labels are binary and both classes occur in every label array, so no 0/0
+            methods = [mth if mth.startswith("neighbor") else "neighbor" for mth in methods]
         if meta_aware:
             methods[0] = "bruteforce"          # only the coalition-evaluating methods fit the model (and so hand it metadata)
 
-        def make(method, utility=None):
+        # feature pipelines of the neighbor objects: none / unsupervised / supervised (the selected column depends on the labels of the fit); own or shared
+        from sklearn.feature_selection import SelectKBest
+
+        def make_pipe(kind):
+            steps = {"scale": [("sc", StandardScaler())], "kbest": [("kb", SelectKBest(k=1))], "scale+kbest": [("sc", StandardScaler()), ("kb", SelectKBest(k=1))]}
+            return Pipeline(steps[kind]) if kind != "none" else None
+        pipe_kinds = [(rng.choice(["none", "scale", "scale", "kbest", "kbest", "scale+kbest"]) if mth.startswith("neighbor") else "none") for mth in methods]
+        if util_kind == "eqodds":
+            # this utility reads its sensitive feature as column 1 of the features it is handed: a pipeline that drops columns is not a valid combination
+            pipe_kinds = [pk if pk in ("none", "scale") else "scale" for pk in pipe_kinds]
+        share_pipe = rng.random() < 0.25
+        shared_pipes = {}
+
+        def pipe_for(o, fresh=False):
+            if fresh or not share_pipe:
+                return make_pipe(pipe_kinds[o])
+            if pipe_kinds[o] not in shared_pipes:
+                shared_pipes[pipe_kinds[o]] = make_pipe(pipe_kinds[o])
+            return shared_pipes[pipe_kinds[o]]
+
+        def make(method, utility=None, pipeline=None):
             kw = {}
             if method == "neighborK":
                 kw = dict(nn_k=2)
             if method == "montecarlo":
                 kw = dict(mc_iterations=3, mc_truncation_steps=0, seed=11)
+            if pipeline is not None:
+                kw["pipeline"] = pipeline
             meth = "neighbor" if method.startswith("neighbor") else method
             return I["imp"].ShapleyImportance(method=meth, utility=(util if utility is None else utility), **kw)
-        objs = [make(mth) for mth in methods]
+        objs = [make(mth, pipeline=pipe_for(o)) for o, mth in enumerate(methods)]
+
+        def feature_distance(hold):
+            # with a pipeline the distances must come from the EXTRACTED features the callable is handed; the matrix it returns is kept and watched
+            def f(A, B):
+                A, B = np.asarray(A, dtype=float), np.asarray(B, dtype=float)
+                Dm = np.abs(A[:, None, :] - B[None, :, :]).sum(axis=2) + np.arange(len(A))[:, None] * 1e-3
+                hold.append((Dm, Dm.copy()))
+                return Dm
+            return f
         fitted = [None] * len(objs)
         ops = []
         n_ops = rng.randint(4, 10 if q else 20)
@@ -142,45 +184,134 @@ def run(ctx):
         planned = [False] * len(objs)
         with_meta = {}          # step -> was this fit given the dataset's metadata?
         fit_meta = [None] * len(objs)
+        plan_fit = [None] * len(objs)          # dataset each object is fitted on at this point of the plan
+        scored = [False] * len(objs)           # ... and whether it was scored since that fit
+        refit_on = [None] * len(objs)
+
+        def plan_edit(di):
+            # the caller edits the training arrays of dataset di in place: a row of X repaired, a label flipped (both classes stay present), or the label
+            # array replaced by a new object; every object fitted on di must be fitted again before its next score
+            yy = np.asarray(d_labels[di])
+            what = rng.choice(["X", "X", "Xy", "y", "y-new"])
+            row = rng.randrange(len(yy))
+            flippable = [r for r in range(len(yy)) if (yy == yy[r]).sum() > 1]
+            if what != "X" and not flippable:
+                what = "X"
+            e = dict(what=what, row=row, x0=round(rng.gauss(0, 2), 3), x1=float(rng.randrange(2)))
+            if what != "X":
+                e["row"] = rng.choice(flippable)
+                d_labels[di] = yy.copy()
+                d_labels[di][e["row"]] = 1 - yy[e["row"]]
+            ops.append(("edit", e, di))
+            for oo in range(len(objs)):
+                if plan_fit[oo] == di:
+                    planned[oo] = False
+                    refit_on[oo] = di
+        d_labels = [np.asarray(d["y"]).copy() for d in datasets]
+        with_pipe = [oo for oo in range(len(objs)) if pipe_kinds[oo] != "none"]
+        if not meta_aware and with_pipe and rng.random() < 0.8:
+            # the history opens with the data-repair loop on a neighbor object with a pipeline: fit, score, in-place repair, fit with the same objects, score
+            o0, d0 = with_pipe[0], rng.randrange(len(datasets))
+            ops += [("fit", o0, d0), ("score", o0, rng.randrange(len(datasets)))]
+            plan_fit[o0], planned[o0] = d0, True
+            plan_edit(d0)
+            ops += [("fit", o0, d0), ("score", o0, rng.randrange(len(datasets)))]
+            planned[o0], scored[o0], refit_on[o0] = True, True, None
         for k in range(n_ops):
+            cand = sorted({plan_fit[oo] for oo in range(len(objs)) if plan_fit[oo] is not None and scored[oo]})
+            if cand and not meta_aware and rng.random() < 0.3:
+                plan_edit(rng.choice(cand))
+                continue
             o = rng.randrange(len(objs))
             if not planned[o] or rng.random() < 0.35:
                 di = rng.randrange(len(datasets))
+                if refit_on[o] is not None and rng.random() < 0.75:
+                    di = refit_on[o]          # the repair loop: fit again with the same (edited) array objects
+                refit_on[o] = None
                 with_meta[len(ops)] = bool(meta_aware and rng.random() < 0.5)
                 ops.append(("fit", o, di))
                 planned[o] = True
+                plan_fit[o], scored[o] = di, False
             else:
                 ops.append(("score", o, rng.randrange(len(datasets))))
+                scored[o] = True
         if meta_aware:
             # the history opens with: fit WITH metadata, refit the same object on other data WITHOUT metadata, score
             ops = [("fit", 0, 0), ("fit", 0, 1), ("score", 0, rng.randrange(len(datasets)))] + ops
             with_meta = {0: True, 1: False, **{k + 3: v for k, v in with_meta.items()}}
-        case = dict(methods=methods, ops=ops, meta_aware=meta_aware, fits_given_metadata=sorted(k for k, v in with_meta.items() if v), datasets=[dict(X=d["X"].tolist(), y=np.asarray(d["y"]).tolist(), Xv=d["Xv"].tolist(), yv=d["yv"].tolist(),
+        case = dict(methods=methods, pipelines=pipe_kinds, pipeline_shared=share_pipe, utility=util_kind, ops=ops, meta_aware=meta_aware, fits_given_metadata=sorted(k for k, v in with_meta.items() if v), datasets=[dict(X=d["X"].tolist(), y=np.asarray(d["y"]).tolist(), Xv=d["Xv"].tolist(), yv=d["yv"].tolist(),
                                                            prov=(np.asarray(getattr(d["prov"], "data", d["prov"])).tolist() if d["prov"] is not None else None)) for d in datasets])
         for k, (op, o, di) in enumerate(ops):
             d = datasets[di]
+            if op == "edit":
+                # the CALLER's own in-place edit of its training arrays (its right; not a call of the library): o is the edit
+                e = o
+                if e["what"] in ("X", "Xy"):
+                    d["X"][e["row"], 0] = e["x0"]
+                    d["X"][e["row"], 1] = e["x1"]
+                if e["what"] in ("y", "Xy"):
+                    if isinstance(d["y"], pd.Series):
+                        d["y"].iloc[e["row"]] = 1 - d["y"].iloc[e["row"]]
+                    else:
+                        d["y"][e["row"]] = 1 - d["y"][e["row"]]
+                if e["what"] == "y-new":
+                    ynew = d["y"].copy()
+                    if isinstance(ynew, pd.Series):
+                        ynew.iloc[e["row"]] = 1 - ynew.iloc[e["row"]]
+                    else:
+                        ynew[e["row"]] = 1 - ynew[e["row"]]
+                    d["y"] = ynew
+                    watched["y%d" % di] = ynew
+                before = snap(watched)          # the reference snapshots follow the caller's own edit
+                last_score = {kk: v for kk, v in last_score.items() if kk[1] != di}      # scores of fits on the old contents are not repeats
+                for oo in range(len(objs)):
+                    if fitted[oo] == di:
+                        fitted[oo] = None          # the plan fits such an object again before it is scored
+                ctx.dist["edit=" + e["what"]] += 1
+                continue
             try:
                 with warnings.catch_warnings():
                     warnings.simplefilter("ignore")
+                    g0 = global_state()
                     if op == "fit":
+                        if fitted[o] is None and objs[o].X_train is d["X"]:
+                            ctx.dist["refit_same_array_object_after_edit"] += 1
                         objs[o].nn_distance = (lambda A, B, D=None: None)
                         fit_meta[o] = d["meta"] if with_meta.get(k) else None
                         objs[o].fit(d["X"], d["y"], metadata=fit_meta[o], provenance=d["prov"])
                         fitted[o] = di
+                        if global_state_diff(g0, global_state()):
+                            ctx.mismatch("fit() changed process-global state as a side effect", dict(case, step=k), impl=global_state_diff(g0, global_state()),
+                                         spec="np.geterr(), np.geterrcall(), warnings.filters and os.environ are the same before and after the call")
+                            bad = True
+                            break
                     else:
                         fd = datasets[fitted[o]]
-                        # distance matrix between the fitted training set and this validation set; the callable hands out a matrix it keeps
-                        Dm = np.abs(fd["X"][:, None, 0] - d["Xv"][None, :, 0]) + np.arange(len(fd["X"]))[:, None] * 1e-3
-                        keep = Dm.copy()
-                        objs[o].nn_distance = lambda A, B, Dm=Dm: Dm
+                        held = []
+                        if pipe_kinds[o] == "none":
+                            # distance matrix between the fitted training set and this validation set; the callable hands out a matrix it keeps
+                            Dm = np.abs(fd["X"][:, None, 0] - d["Xv"][None, :, 0]) + np.arange(len(fd["X"]))[:, None] * 1e-3
+                            held.append((Dm, Dm.copy()))
+                            objs[o].nn_distance = lambda A, B, Dm=Dm: Dm
+                        else:
+                            objs[o].nn_distance = feature_distance(held)
                         s = list(np.asarray(objs[o].score(d["Xv"], d["yv"]), dtype=float))
-                        if Dm.tobytes() != keep.tobytes():
+                        g1 = global_state()
+                        if global_state_diff(g0, g1):
+                            ctx.mismatch("score() changed process-global state as a side effect", dict(case, step=k), impl=global_state_diff(g0, g1),
+                                         spec="np.geterr(), np.geterrcall(), warnings.filters and os.environ are the same before and after the call")
+                            bad = True
+                            break
+                        if any(Dm.tobytes() != keep.tobytes() for Dm, keep in held):
                             ctx.mismatch("score() modified the distance matrix returned by the distance callable", dict(case, step=k), impl="distance matrix changed")
                             bad = True
                             break
                         import sklearn.base as _skb
-                        fresh = make(methods[o], utility=make_util(_skb.clone(model)))      # fresh importance object AND fresh utility
-                        fresh.nn_distance = lambda A, B, Dm=keep: Dm.copy()
+                        fresh = make(methods[o], utility=make_util(_skb.clone(model)), pipeline=pipe_for(o, fresh=True))      # fresh importance object, fresh utility, fresh pipeline
+                        if pipe_kinds[o] == "none":
+                            fresh.nn_distance = lambda A, B, Dm=held[0][1]: Dm.copy()
+                        else:
+                            fresh.nn_distance = feature_distance([])
                         fs = list(np.asarray(fresh.fit(fd["X"], fd["y"], metadata=fit_meta[o], provenance=fd["prov"]).score(d["Xv"], d["yv"]), dtype=float))
                         if s != fs and not (methods[o] == "montecarlo"):
                             ctx.mismatch("score differs from a fresh object fitted on the same data (state leaked from earlier calls)", dict(case, step=k), impl=s, spec=fs)
@@ -204,6 +335,8 @@ def run(ctx):
                 ctx.mismatch("a caller-owned object was modified by %s()" % op, dict(case, step=k), impl=changed)
                 bad = True
                 break
+        for pk in pipe_kinds:
+            ctx.dist["pipeline=" + pk] += 1
         n_fit = len({di for op, o, di in ops if op == "fit"})
         n_score = sum(1 for op, _, _ in ops if op == "score")
         ctx.case(case, nontrivial=(n_fit >= 2 and n_score >= 2), sample=dict(methods=methods, ops=ops), n_objs=len(objs), utility=util_kind)
